@@ -613,7 +613,63 @@ func c07Snapshot(construct, reader, outer int, tw bool) core.Result {
 
 func pre2(pre, src string) string { return pre + src }
 
+// c07HostLoop: the host passes a context entry named like the loop's own variable ("loop"): it is an ordinary outer
+// variable - visible before the loop, shadowed by the loop's metadata inside (where it is loop.parent), exactly as it
+// was afterwards, and visible to included templates and host functions outside the loop.
+func c07HostLoop(form int, tw bool) core.Result {
+	src := []string{
+		"{{ loop }}|{% for i in [1, 2] %}{{ i }}:{{ loop.index }}/{{ loop.parent }};{% endfor %}|{{ loop }}",
+		"{{ loop }}|{% for i in [1, 2] %}{% for j in [7] %}{{ loop.parent.parent }}{{ loop.parent.index }};{% endfor %}{% endfor %}|{{ loop }}",
+		"{% include 'showouter' %}|{% for i in [1] %}{{ loop.length }}{% endfor %}|{% include 'showouter' %}{{ scopeget('loop') }}",
+		"{% if loop %}T{% endif %}{{ loop ~ '!' }}|{% for k, v in {'a': 1} %}{{ k }}{{ loop.first }}{% endfor %}|{{ loop|length }}",
+		"{% macro m(loop) %}<{{ loop }}>{% endmacro %}{{ _self.m('P') }}|{{ loop }}",
+	}[form]
+	want := []string{"outer|1:1/outer;2:2/outer;|outer", "outer|outer1;outer2;|outer", "outer;|1|outer;outer", "Touter!|a1|5", "<P>|outer"}[form]
+	tpls := map[string]string{"main.txt": src, "showouter": "{{ loop }};"}
+	var env *stick.Env
+	if tw {
+		env = twig.New(&stick.MemoryLoader{Templates: tpls})
+	} else {
+		env = stick.New(&stick.MemoryLoader{Templates: tpls})
+		env.Filters["length"] = func(ctx stick.Context, val stick.Value, args ...stick.Value) stick.Value {
+			return len(stick.CoerceString(val))
+		}
+	}
+	env.Functions["scopeget"] = func(c stick.Context, args ...stick.Value) stick.Value {
+		v, _ := c.Scope().Get(stick.CoerceString(args[0]))
+		return v
+	}
+	for _, safe := range []bool{false, true} {
+		var buf strings.Builder
+		var err error
+		pan := ""
+		func() {
+			defer func() {
+				if p := recover(); p != nil {
+					pan = panicInfo(p)
+				}
+			}()
+			ctx := map[string]stick.Value{"loop": "outer"}
+			if safe {
+				err = env.ExecuteSafe("main.txt", &buf, ctx)
+			} else {
+				err = env.Execute("main.txt", &buf, ctx)
+			}
+		}()
+		if pan != "" || err != nil {
+			return core.Violation("error", fmt.Sprintf("%q with the context {loop: 'outer'} (twig=%v, safe=%v): %v %s", src, tw, safe, err, pan))
+		}
+		if buf.String() != want {
+			return core.Violation("scoping", fmt.Sprintf("%q with the context {loop: 'outer'} (twig=%v, safe=%v) renders\n    %q, want\n    %q", src, tw, safe, buf.String(), want))
+		}
+	}
+	return core.Okay(true, want)
+}
+
 func c07Run(c core.Case) core.Result {
+	if c.Fam == "hostloop" {
+		return c07HostLoop(c.N[0], c.N[1] == 1)
+	}
 	if c.Fam == "snapshot" {
 		return c07Snapshot(c.N[0], c.N[1], c.N[2], c.N[3] == 1)
 	}
@@ -757,7 +813,7 @@ func c07Levels(tier string) []core.Level {
 				}
 			}
 		}},
-		{Name: "readers of the whole scope (include without only, Scope().All(), Scope().Get(), block()) inside 6 binding constructs (loop value / key+value over a list and a hash / inner loop metadata / macro parameter / loop in loop) whose own text does not mention the variable x 3 outer states x core and twig environments: the innermost binding is what they see, the outer one again afterwards", Gen: func(emit func(core.Case)) {
+		{Name: "readers of the whole scope (include without only, Scope().All(), Scope().Get(), block()) inside 6 binding constructs (loop value / key+value over a list and a hash / inner loop metadata / macro parameter / loop in loop) whose own text does not mention the variable x 3 outer states x core and twig environments: the innermost binding is what they see, the outer one again afterwards; a host context entry named loop is an ordinary outer variable (5 templates x core / twig x Execute / ExecuteSafe)", Gen: func(emit func(core.Case)) {
 			for construct := 0; construct < 6; construct++ {
 				for reader := 0; reader < 4; reader++ {
 					for outer := 0; outer < 3; outer++ {
@@ -765,6 +821,12 @@ func c07Levels(tier string) []core.Level {
 							emit(core.Case{Fam: "snapshot", N: []int{construct, reader, outer, tw}})
 						}
 					}
+				}
+			}
+			// a context entry of the host named "loop": 5 templates x core / twig x Execute / ExecuteSafe
+			for form := 0; form < 5; form++ {
+				for tw := 0; tw < 2; tw++ {
+					emit(core.Case{Fam: "hostloop", N: []int{form, tw}})
 				}
 			}
 		}},
